@@ -163,4 +163,20 @@ func factsC09() {
 		add("C09", "removalSwapsWithLast", "Bool", sw,
 			"pkg/tracing/tracer.go (*tracer).run: removal assigns t.subscribers[pos] = t.subscribers[l] before truncating")
 	}
+
+	// 6. the sub-process relay (subprocess.go run): is the inner tracer subscribed BEFORE the inner flows are started?
+	//    Positions of the calls `….subTracer.Subscribe()` and `sp.startAll(…)` inside (*subProcess).run.
+	{
+		sf := load("subprocess.go")
+		v := ""
+		if fd := funcDecl(sf, "subProcess", "run"); fd != nil && fd.Body != nil {
+			sub := callPos(fd.Body, "subTracer.Subscribe")
+			st := callPos(fd.Body, ".startAll")
+			if sub != token.NoPos && st != token.NoPos {
+				v = boolLit(sub < st)
+			}
+		}
+		add("C09", "relaySubscribesBeforeStart", "Bool", v,
+			"subprocess.go (*subProcess).run: sp.subTracer.Subscribe() is called before sp.startAll(ctx)")
+	}
 }
